@@ -37,6 +37,8 @@ pub struct GenOpts {
     pub targeted_bias: bool,
     pub call_granular: bool,
     pub multi_iter: bool,
+    /// chance (percent) that a chunk size is at the edge of usize (known-size kinds only)
+    pub huge_pct: u64,
 }
 
 impl GenOpts {
@@ -68,6 +70,7 @@ impl GenOpts {
             targeted_bias: false,
             call_granular: false,
             multi_iter: false,
+            huge_pct: 0,
         }
     }
 }
@@ -153,6 +156,7 @@ pub fn opts_for(prop: &str) -> GenOpts {
             o.w_stop = 10;
             o.into_seq_pct = 100;
             o.into_seq_all = true;
+            o.huge_pct = 8;
             o.pre_pct = 40;
             o.drain = false;
         }
@@ -179,6 +183,7 @@ pub fn opts_for(prop: &str) -> GenOpts {
                 Kind::ClonedIter,
                 Kind::CopiedSlice,
                 Kind::CopiedIter,
+                Kind::ClonedStampSlice,
             ];
             o.w_composite = 10;
             o.w_query = 12;
@@ -289,7 +294,17 @@ fn method(rng: &mut Rng, len: usize) -> Method {
     }
 }
 
-fn gen_ops(rng: &mut Rng, o: &GenOpts, len: usize, is_thread: bool) -> Vec<Op> {
+/// chunk sizes at the edge of usize (used by C10 on known-size kinds; C16 enumerates them)
+fn huge_chunk_size(rng: &mut Rng) -> usize {
+    *rng.pick(&[
+        usize::MAX,
+        usize::MAX / 2 + 1,
+        usize::MAX - 7,
+        usize::MAX / 2,
+    ])
+}
+
+fn gen_ops(rng: &mut Rng, o: &GenOpts, len: usize, is_thread: bool, huge_pct: u64) -> Vec<Op> {
     let n = rng.range(0, o.max_ops);
     let weights = [
         o.w_single,
@@ -311,9 +326,14 @@ fn gen_ops(rng: &mut Rng, o: &GenOpts, len: usize, is_thread: bool) -> Vec<Op> {
                 Op::NextIdVal
             }),
             1 => {
-                let c = chunk_size(rng, len);
+                let huge = rng.chance(huge_pct, 100);
+                let c = if huge {
+                    huge_chunk_size(rng)
+                } else {
+                    chunk_size(rng, len)
+                };
                 let k = if rng.chance(o.partial_pct, 100) {
-                    rng.below(c + 1)
+                    rng.below(c.min(20) + 1)
                 } else {
                     usize::MAX
                 };
@@ -321,7 +341,12 @@ fn gen_ops(rng: &mut Rng, o: &GenOpts, len: usize, is_thread: bool) -> Vec<Op> {
             }
             2 => {
                 if !has_buf || rng.chance(1, 5) {
-                    ops.push(Op::BufNew(chunk_size(rng, len)));
+                    let c = if rng.chance(huge_pct, 100) {
+                        huge_chunk_size(rng)
+                    } else {
+                        chunk_size(rng, len)
+                    };
+                    ops.push(Op::BufNew(c));
                     has_buf = true;
                 }
                 let k = if rng.chance(o.partial_pct, 100) {
@@ -398,17 +423,59 @@ pub fn generate(prop: &str, base_seed: u64, index: u64) -> RunCfg {
     generate_with(prop, &o, base_seed, index)
 }
 
+/// C18: the crash-point grid (site, len, k), enumerated by the run index; everything else is sampled.
+pub fn c18_grid() -> Vec<(PanicSite, usize, u32)> {
+    let mut v = Vec::new();
+    for site in [PanicSite::WrappedNext, PanicSite::Clone, PanicSite::Closure] {
+        for len in 0..=6usize {
+            for k in 0..=(len as u32 + 1) {
+                v.push((site, len, k));
+            }
+        }
+    }
+    v
+}
+
 pub fn generate_with(prop: &str, o: &GenOpts, base_seed: u64, index: u64) -> RunCfg {
     let run_seed = mix(&[base_seed, index, prop_code(prop)]);
     let mut rng = Rng::new(run_seed);
+    let mut o = o.clone();
+    let mut crash_point = None;
+    if !o.panic_sites.is_empty() {
+        let grid = c18_grid();
+        let (site, len, k) = grid[(index % grid.len() as u64) as usize];
+        crash_point = Some((site, len, k));
+        match site {
+            PanicSite::WrappedNext => {
+                o.kinds = vec![
+                    Kind::IterOwned,
+                    Kind::IterRef,
+                    Kind::ClonedIter,
+                    Kind::CopiedIter,
+                    Kind::PlainIter,
+                ]
+            }
+            PanicSite::Clone => o.kinds = vec![Kind::ClonedSlice, Kind::ClonedIter],
+            PanicSite::Closure => o.w_composite = 60,
+        }
+    }
+    let o = &o;
     let kind = *rng.pick(&o.kinds);
-    let len = pick_len(&mut rng, kind, o.max_len);
+    let mut len = pick_len(&mut rng, kind, o.max_len);
+    if let Some((_, l, _)) = crash_point {
+        len = l;
+        if matches!(kind, Kind::Array | Kind::ArrayRef) && !Kind::array_lens().contains(&len) {
+            len = 6;
+        }
+    }
     let hint = *rng.pick(&[Hint::Exact, Hint::Exact, Hint::Inexact, Hint::Unbounded]);
     let start = *rng.pick(&[0usize, 0, 3, 1000]);
     let nthreads = rng.range(o.min_threads, o.max_threads);
+    // sizes at the edge of usize only where the length is known (K2 covers the unknown-size case)
+    let huge_pct = if kind.known_size() { o.huge_pct } else { 0 };
     let mut threads = Vec::new();
     for _ in 0..nthreads {
-        let mut ops = gen_ops(&mut rng, o, len, true);
+        let mut ops = gen_ops(&mut rng, o, len, true, huge_pct);
         let stopped = ops.last() == Some(&Op::Stop);
         if o.drain && !stopped {
             let extra = if rng.chance(1, 3) {
@@ -439,7 +506,7 @@ pub fn generate_with(prop: &str, o: &GenOpts, base_seed: u64, index: u64) -> Run
         threads.push(ops);
     }
     let pre = if rng.chance(o.pre_pct, 100) {
-        let mut p = gen_ops(&mut rng, o, len, false);
+        let mut p = gen_ops(&mut rng, o, len, false, huge_pct);
         p.retain(|op| !matches!(op, Op::Stop));
         p
     } else {
@@ -474,12 +541,7 @@ pub fn generate_with(prop: &str, o: &GenOpts, base_seed: u64, index: u64) -> Run
         sim.stale_permille = *rng.pick(&[50u32, 150, 400]);
         sim.stale_seed = mix(&[run_seed, 0x57a1e]);
     }
-    let panic = if o.panic_sites.is_empty() {
-        None
-    } else {
-        let site = *rng.pick(&o.panic_sites);
-        Some((site, rng.below(len + 2) as u32))
-    };
+    let panic = crash_point.map(|(site, _, k)| (site, k));
     let heap_bytes = if rng.chance(o.heap_pct, 100) {
         *rng.pick(&[8usize, 24, 4096])
     } else {
@@ -498,6 +560,11 @@ pub fn generate_with(prop: &str, o: &GenOpts, base_seed: u64, index: u64) -> Run
         threads,
         terminal,
         panic,
+        consume_nth: if rng.chance(25, 100) {
+            rng.range(1, 2)
+        } else {
+            0
+        },
         sim,
     }
 }
@@ -662,6 +729,7 @@ pub fn generate_c16(base_seed: u64, index: u64, schedules_per_point: u64) -> Run
             Terminal::Drop
         },
         panic: None,
+        consume_nth: ((index / 7) % 3) as usize % 2,
         sim,
     }
 }
